@@ -3149,12 +3149,41 @@ def _second_pass(fa: FA, param):
                 return True
         return False
 
+    def alias_names(name, nid, depth=0):
+        out = {name}
+        for d in fa.df.reaching(nid, name):
+            if d.kind == "assign" and isinstance(d.value, ast.Name) and depth < 3 and d.node >= 0 and d.value.id != name:
+                out |= alias_names(d.value.id, d.node, depth + 1)
+        return out
+
+    cfg_ = fa.cfg
+    memo_r = {}
+
+    def unmaterialised_way(n, i) -> bool:
+        """is there a way from the entry to node i on which the name still holds the un-materialised iterable: no assignment of
+        something else to it (or to the name it is an alias of) on the way, and no branch edge taken that says it is a list /
+        tuple / ... (`isinstance(p, (list, tuple))` true: such a value can be gone through again)"""
+        names = frozenset(alias_names(n.id, i))
+        if names not in memo_r:
+            kills = set()
+            for (nid, ds) in fa.df.gen.items():
+                for d in ds:
+                    if d.name in names and not (d.kind == "assign" and isinstance(d.value, ast.Name) and d.value.id in names):
+                        kills.add(nid)
+            concrete = branch_filter(fa, lambda t, p: p and any(t.startswith("isinstance(%s, " % x) for x in names))
+            r = cfg_.reach([cfg_.entry], removed=kills, edge_ok=concrete)
+            memo_r[names] = (r, kills, concrete)
+        (r, kills, concrete) = memo_r[names]
+        if i in r:
+            return True
+        return i in kills and any(s_ in r and concrete(s_, i, l_) for (s_, l_) in cfg_.pred[i])
+
     uses = []       # (name node, CFG ids, repeated?, loop whose iterable it is)
     for n in A.walk_body(fa.node):
         if not (isinstance(n, ast.Name) and isinstance(n.ctx, ast.Load)):
             continue
         ids = fa.nodes(n)
-        if not ids or not any(raw(n, i) for i in ids):
+        if not ids or not any(raw(n, i) and unmaterialised_way(n, i) for i in ids):
             continue
         par = fa.pm.get(n)
         if isinstance(par, ast.Starred):
